@@ -93,6 +93,7 @@ def run(chk):
         i_min = impl.read_many(t_min)
         if i_min[0] != "Ok":
             chk.count("generator-invalid:" + i_min[0])
+            rc.rejected_program(chk, model, t_min, i_min, oracles)
             continue
         t_flat, _ = rc.render(p, "flat")   # the discarded forms printed as ordinary items: they must be forms too
         if t_flat != t_min and impl.read_many(t_flat)[0] != "Ok":
@@ -110,6 +111,15 @@ def run(chk):
                      i_rand[0] if i_rand[0] != "Ok" else values(i_rand), v_min, how(t_rand))
         correspond(t_rand, i_rand)
         correspond(t_min, i_min)
+        # files (skip_shebang=True): the same forms, also after one leading whitespace character and after a shebang line
+        for ft, fwhat in ((t_rand, "as printed"), (rng.choice(rc.WS) + t_min, "one leading whitespace character"),
+                          ("#!/usr/bin/env hy\n" + t_rand, "after a shebang line")):
+            i_f = impl.read_many(ft, skip_shebang=True)
+            chk.count("file-read")
+            if i_f[0] != "Ok" or values(i_f) != v_min:
+                chk.fail("file-read-not-transparent", {"text": ft, "what": fwhat, "minimal": t_min},
+                         i_f[0] if i_f[0] != "Ok" else values(i_f), v_min,
+                         "list(hy.read_many(%r, skip_shebang=True))" % ft)
         # sugar
         if t_long != t_min:
             chk.count("with-sugar")
@@ -139,6 +149,39 @@ def run(chk):
                 if seam == "":
                     correspond(t1 + t2, i12)
         prev = (t_rand, v_min)
+    # user-defined reader macros (props/reader_common.macro_reader; oracle only): separators and concatenation stay
+    # transparent in a reader that has run such macros -- including ones that use end_identifier
+    mgen = rc.Gen(rng, fstrings=False, depth=3, debug=False, rmacros=True)
+    mprev = None
+    for i in range(8000 if thorough else 700):
+        p = mgen.program()
+        t_rand, _ = rc.render(p)
+        t_min, _ = rc.render(p, "min")
+        if not any(("#" + t) in t_min for t in "RT|KPED"):
+            continue
+        i_min = impl.read_many(t_min, reader=rc.macro_reader())
+        t_flat, _ = rc.render(p, "flat")
+        if i_min[0] != "Ok" or impl.read_many(t_flat, reader=rc.macro_reader())[0] != "Ok":
+            chk.count("macro:generator-invalid")
+            continue
+        v_min = values(i_min)
+        chk.case(("macro", t_rand), nontrivial=True)
+        chk.count("macro-program")
+        mh = "R = props.reader_common.macro_reader(); list(hy.read_many(%r, reader=R))"
+        i_rand = impl.read_many(t_rand, reader=rc.macro_reader())
+        if i_rand[0] != "Ok" or values(i_rand) != v_min:
+            chk.fail("separators-not-transparent", {"printed": t_rand, "minimal": t_min, "reader": "macro_reader"},
+                     i_rand[0] if i_rand[0] != "Ok" else values(i_rand), v_min, mh % t_rand)
+        if mprev is not None:
+            for seam in ("\n", " "):
+                t1 = mprev[0] + seam
+                i12 = impl.read_many(t1 + t_rand, reader=rc.macro_reader())
+                want = mprev[1] + v_min
+                chk.count("macro-concat")
+                if i12[0] != "Ok" or values(i12) != want:
+                    chk.fail("concatenation", {"t1": t1, "t2": t_rand, "reader": "macro_reader"},
+                             i12[0] if i12[0] != "Ok" else values(i12), want, mh % (t1 + t_rand))
+        mprev = (t_rand, v_min)
     if model:
         model.close()
 
